@@ -45,20 +45,20 @@ def run(F, R, tier):
     bf = F.body("fast_check::build_fast_check_type_graph")
     # ---------------- C12-a ------------------------------------------------
     RES_T = "Vec<(url::Url, std::result::Result<fast_check::transform::FastCheckModule"
-    ERR_T = "Vec<fast_check::FastCheckDiagnostic>"
+    ERR_T = "std::vec::Vec<fast_check::FastCheckDiagnostic>"
     rv_ = return_values(F, bf)
     res_lid = peel_value(rv_[0]).get("lid") if rv_ else None
     ext = [n for n in bf["_nodes"] if n.get("k") == "MethodCall" and n["name"] == "extend" and peel(n["recv"]).get("lid") == res_lid]
     ok_mods = [e for e in ext if peel_value(e["args"][0]).get("res") == "local" and any(mentions_call(u, ["fast_check::transform_package"]) for u in bf["_nodes"] if u.get("k") == "Call" and any(peel_value(a_).get("lid") == peel_value(e["args"][0]).get("lid") for a_ in u.get("args", [])))]
     if R.ob("C12-a", "emitted modules are appended to the result", len(ok_mods) == 1, "shape changed", bf["file"]):
         g = guards_at(F, ok_mods[0])
-        ok = any(x.kind == "cond" and x.pol and x.node.get("k") == "MethodCall" and x.node["name"] == "is_empty" and tyc(F, x.node["recv"], ERR_T) for x in g)
+        ok = any(x.kind == "cond" and x.pol and x.node.get("k") == "MethodCall" and x.node["name"] == "is_empty" and ty_is(F, x.node["recv"], ERR_T) for x in g)
         R.ob("C12-a", "a package's emitted modules are published only if it has no errors", ok,
              "final_result.extend(fast_check_modules) is not dominated by errors.is_empty(): a package with diagnostics would still get emitted modules", where(ok_mods[0]))
     pushes = [n for n in bf["_nodes"] if n.get("k") == "MethodCall" and n["name"] == "push" and peel(n["recv"]).get("lid") == res_lid]
     if R.ob("C12-a", "entrypoint error entries are pushed", len(pushes) == 1, "shape changed", bf["file"]):
         g = guards_at(F, pushes[0])
-        ok = any(x.kind == "cond" and not x.pol and x.node.get("name") == "is_empty" and tyc(F, x.node["recv"], ERR_T) for x in g)
+        ok = any(x.kind == "cond" and not x.pol and x.node.get("name") == "is_empty" and ty_is(F, x.node["recv"], ERR_T) for x in g)
         R.ob("C12-a", "entrypoints carry the diagnostics exactly when the package has errors", ok, "error entries not guarded by !errors.is_empty()", where(pushes[0]))
         lp = [a for a in k_ancestors(pushes[0]) if a["k"] == "For"]
         R.ob("C12-a", "every entrypoint of a failing package gets the diagnostics", bool(lp) and mentions_field(lp[0]["iter"], "entrypoints"), "not a loop over package.entrypoints", where(pushes[0]))
@@ -66,15 +66,15 @@ def run(F, R, tier):
     mp = [n for n in tp["_nodes"] if n.get("k") == "MethodCall" and n["name"] == "push" and tyc(F, n["recv"], RES_T)]
     if R.ob("C12-a", "transform_package collects modules", len(mp) == 1, "shape changed", tp["file"]):
         g = guards_at(F, mp[0])
-        R.ob("C12-a", "a module is collected only while the package has no error", any(x.kind == "cond" and x.pol and x.node.get("name") == "is_empty" and tyc(F, x.node["recv"], ERR_T) for x in g),
+        R.ob("C12-a", "a module is collected only while the package has no error", any(x.kind == "cond" and x.pol and x.node.get("name") == "is_empty" and ty_is(F, x.node["recv"], ERR_T) for x in g),
              "fast_check_modules.push not guarded by errors.is_empty()", where(mp[0]))
-    ee = [n for n in tp["_nodes"] if n.get("k") == "MethodCall" and n["name"] == "extend" and tyc(F, n["recv"], ERR_T) and peel(n["recv"]).get("res") == "local" and any(p_.get("lid") == peel(n["recv"]).get("lid") for p_ in tp["body"]["params"])]
+    ee = [n for n in tp["_nodes"] if n.get("k") == "MethodCall" and n["name"] == "extend" and ty_is(F, n["recv"], ERR_T) and peel(n["recv"]).get("res") == "local" and any(p_.get("lid") == peel(n["recv"]).get("lid") for p_ in tp["body"]["params"])]
     R.ob("C12-a", "every module's diagnostics are accumulated", len(ee) == 1, "errors.extend missing", tp["file"])
     # range-finder diagnostics block transformation of that module
     tr = [n for n in tp["_nodes"] if callee_matches(n, ["fast_check::transform::transform"])]
     if R.ob("C12-a", "transform call found", len(tr) == 1, "shape changed", tp["file"]):
         g = guards_at(F, tr[0])
-        R.ob("C12-a", "a module with tracing diagnostics is not transformed", any(x.kind == "cond" and x.pol and x.node.get("name") == "is_empty" and tyc(F, x.node["recv"], ERR_T) and any(mentions_call(y, ["ModulePublicRanges::take_diagnostics"]) for y in through_locals(peel_value(x.node["recv"]))) for x in g), "transform not guarded by diagnostics.is_empty()", where(tr[0]))
+        R.ob("C12-a", "a module with tracing diagnostics is not transformed", any(x.kind == "cond" and x.pol and x.node.get("name") == "is_empty" and ty_is(F, x.node["recv"], ERR_T) and any(mentions_call(y, ["ModulePublicRanges::take_diagnostics"]) for y in through_locals(peel_value(x.node["recv"]))) for x in g), "transform not guarded by diagnostics.is_empty()", where(tr[0]))
 
     # ---------------- C12-b ------------------------------------------------
     tg = F.body("fast_check::range_finder::PublicRangeFinder::try_get_cache_item")
